@@ -50,7 +50,7 @@ def main():
     rc_changed, out_changed = sh('/venv/bin/python seed/demo.py', wt)
     rc_suite, out_suite = sh('/venv/bin/python -m pytest -q -p no:cacheprovider --timeout=900 --continue-on-collection-errors 2>&1 | tail -1', wt)
     # (no `git stash`: the stash is shared by all worktrees of the repository)
-    sh('git diff -- dashlive > /tmp/seed-intake.diff && git apply -R /tmp/seed-intake.diff', wt)
+    sh('git diff -- dashlive templates > /tmp/seed-intake.diff && git apply -R /tmp/seed-intake.diff', wt)
     rc_orig, out_orig = sh('/venv/bin/python seed/demo.py', wt)
     sh('git apply /tmp/seed-intake.diff && rm -f /tmp/seed-intake.diff', wt)
     meta['demo_with_change'] = {'exit': rc_changed, 'tail': out_changed.strip().splitlines()[-3:]}
@@ -61,7 +61,7 @@ def main():
     for f in ('patch.diff', 'demo.py', 'notes.md'):
         if os.path.exists(f'{wt}/seed/{f}'):
             shutil.copy(f'{wt}/seed/{f}', f'{dest}/{f}')
-    sh(f'git -C {wt} diff -- dashlive > {dest}/patch.diff')
+    sh(f'git -C {wt} diff -- dashlive templates > {dest}/patch.diff')
     meta['check_results'] = {}
     if ok:
         rc, out = sh(f'git -C /repo apply {dest}/patch.diff')
